@@ -8,6 +8,14 @@ EXTENDS MCParallel, Json, IOUtils
 Table == JsonDeserialize(IOEnv.VF_TABLE)
 ConfigsTable == {Table[i] : i \in 1..Len(Table)}
 
+\* one simulation run covers the correct bodies and the controls that are wrong on purpose
+\* (ids >= 40): the memory related invariants are demanded of the former only
+GoodCfg == cfg.id < 40
+MutexArraysG == GoodCfg => MutexArrays
+NoLostUpdateG == GoodCfg => NoLostUpdate
+ExactlyOnceG == GoodCfg => ExactlyOnce
+ConfigsReplayAll == ConfigsReplay \cup ConfigsReplayBad
+
 Emit(x) == PrintT(<<"VF", ToJson(x)>>)
 EmitBehaviours == (Record /\ (Terminal \/ Stuck)) =>
                     Emit([cfg |-> cfg, hist |-> hist,
